@@ -19,6 +19,8 @@ var noopPkgs = []string{
 	"go.opentelemetry.io/otel",
 	"k8s.io/client-go/tools/record",
 	"github.com/sirupsen/logrus",
+	"github.com/AliyunContainerService/terway/pkg/tracing",
+	"github.com/AliyunContainerService/terway/pkg/metric",
 	"log",
 }
 
